@@ -83,6 +83,15 @@ func c19Layer(r *rand.Rand) map[string]any {
 		m["c"] = []any{"scalar-over-mapping", "${e}"}[r.Intn(2)]
 	case 1: // (a key nobody mentions: a mention of a mapping is outside the resolver's contract)
 		m["l"] = []any{map[string]any{"u": map[string]any{"sub": "${f.g}", "n": 1}}}
+	case 2: // keys that differ in letter case only are different keys, both mentioned
+		m["region"], m["Region"], m["uses"] = "r", "R", "${region}-${Region}"
+	case 3: // a list of more than ten items: item 10 mentions a key and is mentioned by its own path
+		l := make([]any, 12)
+		for i := range l {
+			l[i] = fmt.Sprintf("h%d", i)
+		}
+		l[10] = "${e}"
+		m["hosts"], m["tenth"] = l, "${hosts[10]}/${hosts[2]}"
 	}
 	return m
 }
